@@ -37,6 +37,7 @@ class GCfg:
     rebuild: bool = False
     indexed: bool = False
     combined: bool = False
+    twin: bool = False  # reachability twin: the harness ends with check(False), which must come back violated
 
 
 def _edges(c: Ctx, names: List[str]) -> Dict[str, List[str]]:
@@ -152,6 +153,8 @@ def run_c07(cfg: GCfg, c: Ctx) -> Any:
     c.cover("states", hash((tuple(names), tuple(tuple(deps[n]) for n in names), tuple(sorted(dbg)))))
     if any(len(anc[n]) >= 2 and any(a in anc[b] for a in anc[n] for b in anc[n]) for n in names):
         c.cover("w_diamond")
+    if cfg.twin:
+        c.check(False, "reachability twin: the end of the harness is reachable", prop="TWIN")
     return {"names": names, "deps": deps, "debug": sorted(dbg)}
 
 
@@ -343,6 +346,8 @@ def run_c12(cfg: GCfg, c: Ctx) -> Any:
         c.cover("w_proper_subgraph")
     if R is not None and X is not None and T is not None:
         c.cover("w_all_three")
+    if cfg.twin:
+        c.check(False, "reachability twin: the end of the harness is reachable", prop="TWIN")
     return {"case": "ok", "expected": sorted(expected), **data}
 
 
@@ -492,4 +497,6 @@ def run_c13(cfg: GCfg, c: Ctx) -> Any:
     c.cover("states", hash((tuple(tuple(deps[l]) for l in labels), tuple(sorted(dbg)), run_dbg, repr(mode))))
     if dbg and mode not in ("call", "setup"):
         c.cover("w_debug_with_selection")
+    if cfg.twin:
+        c.check(False, "reachability twin: the end of the harness is reachable", prop="TWIN")
     return {"case": "ok", **data}
